@@ -2241,6 +2241,11 @@ func c07GenBase(rt *rapid.T, nm *hx.NodeMachine) (*c07Base, error) {
 		}
 	}
 	b.HD = rapid.IntRange(0, 2).Draw(rt, "hd") == 0
+	// 1 base in 3 has a nonce of several hundred bytes (round-7 change C07-k: a chunked string encoder that repeats the
+	// first 256 bytes): the mutator changes the first and the LAST byte of every string field and appends / truncates
+	if rapid.IntRange(0, 2).Draw(rt, "longnonce") == 0 {
+		spec.NoncePad = rapid.SampledFrom([]int{256, 300, 700}).Draw(rt, "noncepad")
+	}
 	drawSigners := func(min, max int, distinct bool) {
 		n := rapid.IntRange(min, max).Draw(rt, "nsigners")
 		for i := 0; i < n; i++ {
